@@ -157,27 +157,32 @@ def Verdict.merge (a b : Verdict) : Verdict :=
 
 def failAgree (s : String) : Verdict := { agree := some s }
 
-/-- tokens of one column group of a row; `none` if a token crosses the right rule -/
-def groupTokens (l : Array Char) (u : List Nat) (exp : Nat) : Option (List String) :=
+/-- tokens (with positions) of one column group of a row; `none` if a token crosses the right rule -/
+def groupTokensPos (l : Array Char) (u : List Nat) (exp : Nat) : Option (List (String × Nat × Nat)) :=
   let a := u.getD exp 0
   let b := u.getD (exp + 1) 0
   -- a token belongs to the group in which it starts; take everything starting in [a, b)
   let ts := (tokens l a l.size).filter fun t => t.2.1 < b
-  if ts.any (fun t => t.2.2 > b) then none else some (ts.map (·.1))
+  if ts.any (fun t => t.2.2 > b) then none else some ts
+
+def groupTokens (l : Array Char) (u : List Nat) (exp : Nat) : Option (List String) :=
+  (groupTokensPos l u exp).map fun ts => ts.map (·.1)
 
 /-- one data or summary row. `summary` = the geomean row. -/
-def judgeRow (l : Array Char) (u : List Nat) (ncols : Nat) (rcd : List String) (summary : Bool) :
-    Verdict × List Nat := Id.run do
+def judgeRow (l : Array Char) (u : List Nat) (ncols : Nat) (rcd : List String) (summary : Bool)
+    (vs : List (Option Nat) := []) : Verdict × List Nat := Id.run do
   let mut v : Verdict := {}
   let mut foots : List Nat := []
   let label := trimStr (l.toList.take (u.headD 0))
   if label != rcd.headD "" then v := v.merge (failAgree s!"label:{label}")
   if (tokens l (u.getLastD 0) l.size).length > 0 then v := v.merge { layout := some "beyondedge" }
   for exp in List.range ncols do
-    match groupTokens l u exp with
+    match groupTokensPos l u exp with
     | none => v := v.merge { layout := some s!"crossrule:{label}:{exp}" }
-    | some ts =>
+    | some tsp =>
+      let ts := tsp.map (·.1)
       foots := foots ++ (ts.filter isFootTok).map superVal
+      let tsp := tsp.filter (!isFootTok ·.1)
       let ts := ts.filter (!isFootTok ·)
       let c := startCol exp
       let center := rcd.getD c ""
@@ -185,12 +190,17 @@ def judgeRow (l : Array Char) (u : List Nat) (ncols : Nat) (rcd : List String) (
       let delta := rcd.getD (c + 2) ""
       let pstr := rcd.getD (c + 3) ""
       if summary then
-        let want := (if center == "" then 0 else 1) + (if exp > 0 && delta != "" then 1 else 0)
-        if ts.length != want then v := v.merge (failAgree s!"sumcells:{exp}")
-        else
-          if center != "" && !numAgree (ts.getD 0 "") center then
-            v := v.merge (failAgree s!"sumnum:{exp}:{ts.getD 0 ""}:{center}")
-          if exp > 0 && delta != "" && ts.getLastD "" != delta then v := v.merge (failAgree s!"sumdelta:{exp}")
+        -- positional: what stands left of the "vs base" header is the centre, the rest the delta
+        let (cts, dts) : List (String × Nat × Nat) × List (String × Nat × Nat) := match vs.getD exp none with
+          | some p => (tsp.filter (fun (t : String × Nat × Nat) => t.2.1 + 2 < p),
+                       tsp.filter (fun (t : String × Nat × Nat) => !(t.2.1 + 2 < p)))
+          | none => (tsp, [])
+        if center == "" && !cts.isEmpty then v := v.merge (failAgree s!"sumcentre:{exp}:extra")
+        if center != "" && (cts.length != 1 || !numAgree ((cts.map (·.1)).getD 0 "") center) then
+          v := v.merge (failAgree s!"sumnum:{exp}:{(cts.map (·.1)).getD 0 ""}:{center}")
+        if (exp == 0 || delta == "") && !dts.isEmpty then v := v.merge (failAgree s!"sumdelta:{exp}:extra")
+        if exp > 0 && delta != "" && dts.map (·.1) != [delta] then v := v.merge (failAgree s!"sumdelta:{exp}")
+        if range != "" || pstr != "" then v := v.merge (failAgree s!"sumpos:{exp}")
       else if center == "" then
         if !ts.isEmpty then v := v.merge (failAgree s!"extracell:{label}:{exp}")
       else
@@ -262,8 +272,21 @@ def judgeBlock (tl : List String) (cr : List (Nat × List String)) (warns : List
   for (t, c) in trows.zip (crows.map (·.2)) do
     let (v', f) := judgeRow t.toList.toArray u ncols c false
     v := v.merge v'; foots := foots ++ f
+  -- the CSV summary row against the header positions alone (also for one-row tables, where the
+  -- text has no geomean row): values only under a centre header or under "vs base"
+  for j in List.range csum.length do
+    if j > 0 && csum.getD j "" != "" then
+      let h := unitRec.getD j ""
+      let isCentre := (List.range ncols).any fun exp => startCol exp == j
+      let isDelta := (List.range ncols).any fun exp => exp > 0 && startCol exp + 2 == j
+      if !(isCentre || isDelta) || (isDelta && h != "vs base") then v := v.merge (failAgree s!"sumpos:field{j}:{h}")
+  if csum.length > unitRec.length then v := v.merge (failAgree "sumpos:long")
   if wantSummary then
-    let (v', f) := judgeRow (trows.getLastD "").toList.toArray u ncols csum true
+    let vs : List (Option Nat) := (List.range ncols).map fun exp =>
+      match groupTokensPos unitLine u exp with
+      | some ts => (ts.find? (·.1 == "vs")).map (·.2.1)
+      | none => none
+    let (v', f) := judgeRow (trows.getLastD "").toList.toArray u ncols csum true vs
     v := v.merge v'; foots := foots ++ f
   -- warnings: footnotes of the text against the CSV's second stream, as sets of messages
   let defs := tfoot.map fun s =>
